@@ -17,6 +17,8 @@ import os
 # would otherwise never be reached by streams of small cases.
 STRETCH = float(os.environ.get('VERIF_STRETCH', '0.06'))
 EXTRA_PARTS = ('piano__1', 'piano__2', 'flute__0', 'violin__1')
+# share of the notes / chords / parts derived from an earlier one of the same stream by changing at most one field
+SIBLING = float(os.environ.get('VERIF_SIBLING', '0.1'))
 
 
 def lib():
@@ -54,8 +56,28 @@ def rand_tonality(rng, octaves=(-2, 2)):
 
 
 def rand_chord(rng, ext=None, valid=True, octaves=(-2, 2), max_mods=3):
-    """a chord without parts"""
+    """a chord without parts.  One call in ten returns a *sibling* of a chord this stream produced earlier: the same
+    degree, figure and tonality at another chord octave (or exactly the same chord again).  Memo tables keyed on a
+    chord's harmony but not its octave (seeds C13-5, C19-5) only go wrong when the same harmony comes back at another
+    octave in one process, which independent random chords practically never do."""
     from musiclang import Chord
+    recent = rng.__dict__.setdefault('_mv_recent_chords', []) if hasattr(rng, '__dict__') else []
+    if valid and recent and octaves[0] < octaves[1] and rng.random() < SIBLING:
+        pool = [x for x in recent[-8:] if ext is None or x[1] == ext] or recent[-8:]
+        c0, text = rng.choice(pool)
+        if ext is not None and text != ext:
+            try:
+                text = ext
+                Chord(int(c0.element), extension=text, tonality=c0.tonality.copy()).chord_notes
+            except Exception:
+                c0, text = None, None
+    else:
+        c0 = None
+    if c0 is not None:
+        o = rng.choice([k for k in range(octaves[0], octaves[1] + 1)])
+        to = min(max(int(c0.tonality.octave), octaves[0]), octaves[1])
+        c = Chord(int(c0.element), extension=text, tonality=c0.tonality.copy().o(to - int(c0.tonality.octave)), octave=o)
+        return c, text
     for _ in range(50):
         text = ext if ext is not None else rand_ext_text(rng, max_mods=max_mods)
         try:
@@ -64,6 +86,8 @@ def rand_chord(rng, ext=None, valid=True, octaves=(-2, 2), max_mods=3):
             if valid:
                 c.extension_notes
                 c.chord_notes
+                recent.append((c, text))
+                del recent[:-16]
             return c, text
         except Exception:
             if not valid or ext is not None:
@@ -87,9 +111,6 @@ def rand_note(rng, kinds=NONREL, vals=(-15, 15), octs=(-3, 3), p_acc=0.25, p_mod
     if rng.random() < p_amp:
         n = getattr(n, rng.choice(['ppp', 'pp', 'p', 'mp', 'mf', 'f', 'ff', 'fff']))
     return n
-
-
-SIBLING = float(os.environ.get('VERIF_SIBLING', '0.1'))
 
 
 def sibling_note(rng, prev, p_acc, p_mode, p_amp):
@@ -157,6 +178,15 @@ def rand_score(rng, n_chords=(1, 4), parts=('piano__0', 'violin__0', 'cello__0')
         sib = []
         for p in parts:
             if rng.random() < p_absent and len(parts) > 1:
+                continue
+            if sc and rng.random() < SIBLING * 0.8:
+                # a doubled voice: an earlier part of this chord again, some notes differing by one field (accidental,
+                # mode, dynamics).  Seed C12-5 sliced "distinct" voices once, keyed on Note.__eq__, which ignores those.
+                from musiclang import Melody
+                src = sc[rng.choice(list(sc))]
+                sc[p] = Melody([n.copy() if (n.type in ('r', 'l') or rng.random() < 0.5)
+                                else sibling_note(rng, n, mel.get('p_acc', 0.1), mel.get('p_mode', 0.1), mel.get('p_amp', 0.3))
+                                for n in src.notes])
                 continue
             sc[p] = rand_melody(rng, kinds=kinds, sib=sib, **mel)
         if not sc:
